@@ -82,6 +82,7 @@ func main() {
 	h.validateStage()
 	h.sequencerProbe(root.Fork(6_666_666))
 	h.fallbackProbe(root.Fork(5_555_555))
+	h.newChainProbe()
 	lap("probes")
 	nSeq := f.Scale(260, 4500)
 	h.parallel(nSeq, func(w *harness, i int) { w.seqCase(root.Fork(uint64(i)), i) })
@@ -89,6 +90,11 @@ func main() {
 	nOv := f.Scale(500, 9000)
 	h.parallel(nOv, func(w *harness, i int) { w.overlayCase(root.Fork(uint64(1_000_000+i)), i) })
 	lap("overlay")
+	h.pscriptExhaustive()
+	lap("pscript-exhaustive")
+	nPS := f.Scale(160, 2500)
+	h.parallel(nPS, func(w *harness, i int) { w.pscriptCase(root.Fork(uint64(3_000_000+i)), i) })
+	lap("pscript")
 	nLive := f.Scale(120, 2000)
 	h.parallel(nLive, func(w *harness, i int) { w.liveCase(liveRNG(f.Seed, i), i) })
 	lap("live")
@@ -145,14 +151,16 @@ func (h *harness) compare(r *runner, scn *Scenario) {
 	if h.drv == nil || len(r.asks) == 0 {
 		return
 	}
-	lines := make([]string, len(r.asks))
-	for i, a := range r.asks {
+	// a snapshot: an op abandoned as hanging may still append to r.asks from its goroutine
+	asks := append([]ask(nil), r.asks...)
+	lines := make([]string, len(asks))
+	for i, a := range asks {
 		lines[i] = a.line
 	}
 	var outs []string
 	var err error
-	if !lib.WithDeadline(120*time.Second, func() { outs, err = h.drv.AskAll(lines) }) {
-		h.res.Fatalf("the Lean driver did not answer %d requests within 120s (hung)", len(lines))
+	if !lib.WithDeadline(600*time.Second, func() { outs, err = h.drv.AskAll(lines) }) {
+		h.res.Fatalf("the Lean driver did not answer %d requests within 600s (hung)", len(lines))
 		h.drv = nil // the pipe is in an unknown state: this worker stops comparing
 		return
 	}
@@ -161,7 +169,8 @@ func (h *harness) compare(r *runner, scn *Scenario) {
 		return
 	}
 	h.res.Compared(len(outs))
-	for i, a := range r.asks {
+	var modelPubs []string
+	for i, a := range asks {
 		model, impl := outs[i], a.impl
 		if model == "bad-op" {
 			h.res.Fatalf("the Lean driver answered bad-op to %q", clip(a.line))
@@ -172,6 +181,20 @@ func (h *harness) compare(r *runner, scn *Scenario) {
 			h.res.Hit("apply-rejected:" + strings.TrimPrefix(model, "err:"))
 		}
 		switch a.cmp {
+		case "ptick":
+			// `<status> | <calls> #pub <entries>`: status and endpoint calls are compared exactly (an
+			// error the harness cannot classify only has to be an error of that stage); the feed sends
+			// are collected and compared as a whole below
+			head, pubs, _ := strings.Cut(model, " #pub")
+			if pubs = strings.TrimSpace(pubs); pubs != "" {
+				modelPubs = append(modelPubs, strings.Split(pubs, " | ")...)
+			}
+			ok = head == impl
+			if !ok {
+				ms, mc, _ := strings.Cut(head, " | ")
+				is, ic, _ := strings.Cut(impl, " | ")
+				ok = mc == ic && strings.HasPrefix(ms, "err") && (is == "err" || (is == "err:apply" && strings.HasPrefix(ms, "err:apply:")))
+			}
 		case "apply":
 			// rejection classes are compared (model vs the wording of juno's error); an error whose
 			// wording is unknown to the harness only has to be an error
@@ -222,6 +245,23 @@ func (h *harness) compare(r *runner, scn *Scenario) {
 			return // later answers of this scenario depend on this one
 		}
 	}
+	// pscript: what the real Poller sent to the feed must be, in order, among what the model publishes
+	// (the feed drops an entry when its one-slot buffer is full: a subsequence, not equality)
+	j := 0
+	for _, p := range r.implPubs {
+		for j < len(modelPubs) && modelPubs[j] != p {
+			j++
+		}
+		if j == len(modelPubs) {
+			h.res.Mismatch(lib.Mismatch{Sig: "model-differs:feed-publication", Input: map[string]any{"scenario": scn},
+				Model: fmt.Sprintf("publishes %d entries, none (left) equal to this one", len(modelPubs)), Impl: clip(p)})
+			return
+		}
+		j++
+	}
+	if len(r.implPubs) > 0 {
+		h.res.HitN("pscript-feed-entries-matched", len(r.implPubs))
+	}
 }
 
 func trunc(scn *Scenario, op int) *Scenario {
@@ -243,7 +283,9 @@ func (h *harness) report(r *runner, scn *Scenario) {
 			continue
 		}
 		small := trunc(scn, fd.op)
-		if scn.Kind != "live" {
+		if scn.Kind == "pscript" {
+			small = shrinkTicks(scn, fd.op, fd.sig)
+		} else if scn.Kind != "live" {
 			small = shrink(small, fd.sig)
 		}
 		h.res.Violate(lib.Violation{Sig: fd.sig, What: fd.what, Replay: small})
@@ -359,6 +401,15 @@ func (h *harness) replay(path string) {
 	if scn.Kind == "concurrent" {
 		h.res.Note("replay of a concurrent finding re-runs the concurrent stage")
 		h.concurrentChild()
+		return
+	}
+	if scn.Kind == "pscript" {
+		r, err := runPScript(&scn, h.drv != nil, 0, nil)
+		if err != nil {
+			h.res.Fatalf("replay: setup failed: %v", err)
+			return
+		}
+		h.finishCase(r, &scn, "replay")
 		return
 	}
 	r, err := runScenario(&scn, h.drv != nil)
